@@ -550,9 +550,11 @@ class Function(object):
 
         """
 
-        # Browse the list of point "self" has been evaluated on
+        # Browse the list of point "self" has been evaluated on.
+        # Null coefficients do not change a point: recorded points are pruned by add_point, so prune the query as well.
+        decomposition_dict = prune_dict(point.decomposition_dict)
         for triplet in self.list_of_points:
-            if triplet[0].decomposition_dict == point.decomposition_dict:
+            if prune_dict(triplet[0].decomposition_dict) == decomposition_dict:
                 # If "self" has been evaluated on "point", then break the loop and return its corresponding data
                 return triplet[1:]
 
